@@ -243,6 +243,13 @@ func wkt(wkt string) (*SR, error) {
 	if math.IsNaN(sr.Lat0) {
 		sr.Lat0 = sr.Lat1
 	}
+	// OGC WKT gives the central meridian of these projections as
+	// "longitude_of_center".
+	if math.IsNaN(sr.Long0) && !math.IsNaN(sr.LongC) &&
+		(sr.Name == "Albers_Conic_Equal_Area" || sr.Name == "Lambert_Azimuthal_Equal_Area" ||
+			sr.Name == "Equidistant_Conic") {
+		sr.Long0 = sr.LongC
+	}
 
 	return sr, err
 }
